@@ -31,5 +31,6 @@ def part(items, tier, seed, k):
     """quick: every k-th item of a fixed enumeration, the residue chosen by the seed; thorough: all."""
     items = list(items)
     if tier == 'thorough' or k <= 1: return items, True
+    # a multiplicative hash of the index, not the index itself: plain strides alias with the nesting of product enumerations
     r = seed % k
-    return [x for i, x in enumerate(items) if i % k == r], False
+    return [x for i, x in enumerate(items) if ((i * 2654435761 + 12345) >> 7) % k == r], False
